@@ -48,10 +48,10 @@ Definition nroot : nat := Z.to_nat (nx * ny * nz).
 Definition rootc_slot (ri : nat) : P3 :=
   let r := Z.of_nat ri in
   (root_centre hroot nx (r mod nx), root_centre hroot ny ((r / nx) mod ny), root_centre hroot nz (r / nx / ny)).
-(* the particle is in the half-open box *)
+(* the particle is in the CLOSED box (reb_boundary_particle_is_in_box); since /repo da62396 the upper border is handled *)
 Definition inbox (p : P3) : Prop :=
   let '(x, y, z) := p in
-  - (nx * hroot) <= x < nx * hroot /\ - (ny * hroot) <= y < ny * hroot /\ - (nz * hroot) <= z < nz * hroot.
+  - (nx * hroot) <= x <= nx * hroot /\ - (ny * hroot) <= y <= ny * hroot /\ - (nz * hroot) <= z <= nz * hroot.
 (* geometry of a NEW root cell as reb_tree_add_particle_to_cell computes it from the particle *)
 Definition rootc_new (p : P3) : P3 :=
   let '(x, y, z) := p in
